@@ -1,10 +1,11 @@
 package main
 
 import (
-	"encoding/json"
 	"context"
+	"encoding/json"
 	"errors"
 	"fmt"
+	"math/rand/v2"
 	"net/http"
 	"net/url"
 	"strings"
@@ -15,6 +16,8 @@ import (
 
 	"github.com/zitadel/oidc/v3/pkg/oidc"
 	"github.com/zitadel/oidc/v3/pkg/op"
+
+	httphelper "github.com/zitadel/oidc/v3/pkg/http"
 
 	"verif/internal/ev"
 	"verif/internal/keys"
@@ -65,13 +68,27 @@ func (h *hostileCrypto) Decrypt(c string) (string, error) {
 	return p, nil
 }
 
-// providerWrap is an OpenIDProvider that differs from the real provider only in Crypto().
+// providerWrap is an application-defined OpenIDProvider that differs from the real provider in Crypto() and / or
+// Encoder() (both are interfaces the library takes from the application through the Authorizer).
 type providerWrap struct {
 	*op.Provider
 	crypto op.Crypto
+	enc    httphelper.Encoder
 }
 
-func (p *providerWrap) Crypto() op.Crypto { return p.crypto }
+func (p *providerWrap) Crypto() op.Crypto {
+	if p.crypto == nil {
+		return p.Provider.Crypto()
+	}
+	return p.crypto
+}
+
+func (p *providerWrap) Encoder() httphelper.Encoder {
+	if p.enc == nil {
+		return p.Provider.Encoder()
+	}
+	return p.enc
+}
 
 // faultStore makes one storage method fail with a generated error (fresh value per call: the library writes
 // state and session_state into the *oidc.Error it is handed).
@@ -140,9 +157,11 @@ type e2eWorld struct {
 	*opdrv.World
 	faults *faultStore
 	crypto *hostileCrypto
+	enc    *faultyEncoder
 }
 
-func newE2EWorld(sessionState string, crypto *hostileCrypto) (*e2eWorld, error) {
+// newE2EWorld: withEnc puts a faultyEncoder (inert until armed) around the provider's own response encoder.
+func newE2EWorld(sessionState string, crypto *hostileCrypto, withEnc bool) (*e2eWorld, error) {
 	st := vstore.New(keys.Get("op-sig-1", jose.RS256))
 	st.SessionState = sessionState
 	fs := &faultStore{Storage: st.As(vstore.Caps{})}
@@ -154,13 +173,21 @@ func newE2EWorld(sessionState string, crypto *hostileCrypto) (*e2eWorld, error) 
 	w := &opdrv.World{Store: st, Storage: fs, Provider: p, Issuer: opdrv.DefaultIssuer, Host: "op.verif.test"}
 	var prov op.OpenIDProvider = p
 	w.Handlers[opdrv.RouterProvider] = p
-	if crypto != nil {
-		pw := &providerWrap{Provider: p, crypto: crypto}
+	var fe *faultyEncoder
+	if crypto != nil || withEnc {
+		pw := &providerWrap{Provider: p}
+		if crypto != nil {
+			pw.crypto = crypto
+		}
+		if withEnc {
+			fe = &faultyEncoder{inner: p.Encoder()}
+			pw.enc = fe
+		}
 		prov = pw
 		w.Handlers[opdrv.RouterProvider] = op.CreateRouter(pw)
 	}
 	w.Handlers[opdrv.RouterLegacy] = op.RegisterLegacyServer(op.NewLegacyServer(prov, opdrv.DefaultEndpointsCopy()), op.AuthorizeCallbackHandler(prov), op.WithFallbackLogger(opdrv.Discard))
-	return &e2eWorld{World: w, faults: fs, crypto: crypto}, nil
+	return &e2eWorld{World: w, faults: fs, crypto: crypto, enc: fe}, nil
 }
 
 var scenarios = []string{"success", "callback-before-login", "prompt-none", "fault-create", "fault-callback", "scope-missing", "response-type-unregistered", "prompt-conflict", "bad-hint"}
@@ -183,10 +210,18 @@ type e2ePlan struct {
 	// carries the state (the query carries another one, which the object overrides); "without-state": the object has
 	// no state claim and the state travels as plain query parameter - either way the client sent exactly p.state
 	reqObj string
+	// enc*: the Authorizer's response encoder fails at its encAt-th Encode call counted from the start of encPhase
+	// ("authorize": armed before the authorization request, "callback": armed before the callback); once, or from
+	// then on (encSticky). encPhase "" = the provider's own encoder, untouched.
+	encPhase  string
+	encAt     int
+	encSticky bool
+	encKind   string
 }
 
-func planE2E(run *ev.Run, j int) e2ePlan {
-	r := run.CaseRand(2, j)
+func planE2E(run *ev.Run, j int) e2ePlan { return planE2EFrom(run.CaseRand(2, j), scenarioWeights) }
+
+func planE2EFrom(r *rand.Rand, scenarioWeights []int) e2ePlan {
 	var p e2ePlan
 	p.clientKind = pickWeighted(r, []string{"web", "native", "webdev"}, []int{6, 3, 1})
 	shapes := shapesFor(p.clientKind)
@@ -255,14 +290,16 @@ func planE2E(run *ev.Run, j int) e2ePlan {
 // e2eCase plays authorize -> login -> callback for one generated request on one router and judges what the user
 // agent would hand to the client.
 func e2eCase(run *ev.Run, j int, router int) {
-	p := planE2E(run, j)
-	caseIdx := int64(j)*2 + 1
+	e2eRun(run, planE2E(run, j), int64(j)*2+1, router)
+}
+
+func e2eRun(run *ev.Run, p e2ePlan, caseIdx int64, router int) {
 	rn := opdrv.RouterNames[router]
 	var hc *hostileCrypto
 	if p.cryptoClass != "default" {
 		hc = &hostileCrypto{vals: append([]string(nil), p.cryptoVals...), plain: map[string]string{}}
 	}
-	w, err := newE2EWorld(p.ss, hc)
+	w, err := newE2EWorld(p.ss, hc, p.encPhase != "")
 	if err != nil {
 		run.HarnessBug("cannot build world: " + err.Error())
 		return
@@ -335,7 +372,7 @@ func e2eCase(run *ev.Run, j int, router int) {
 		w.faults.arm("CreateAuthRequest", mkFault)
 	}
 
-	exp := &expect{Case: caseIdx, Front: "e2e", Who: rn + "/" + p.scenario, RedirectURI: p.uri, Want: p.mode,
+	exp := &expect{Case: caseIdx, Front: "e2e", Who: rn + "/" + p.scenario, RedirectURI: p.uri, Want: p.mode, TypeDefault: typeDefault(p.rt),
 		AllowExtra: map[string]bool{"token_type": true, "expires_in": true, "scope": true}}
 	exp.Input = map[string]any{
 		"router": rn, "scenario": p.scenario, "client": map[string]any{"kind": p.clientKind, "registered_redirect_uri": p.registered},
@@ -343,6 +380,12 @@ func e2eCase(run *ev.Run, j int, router int) {
 		"crypto": p.cryptoClass, "fault": map[string]any{"method": p.faultMethod, "kind": p.faultKind, "error": p.faultCode, "text": p.faultDesc, "error_says": producedDesc, "as_format": p.faultKind == "oidc-fmt" && p.faultVariant == 0},
 	}
 	exp.Dim = fmt.Sprintf("e|%s|%s|%s|%s|%s|%s|ss=%v|cr=%s|f=%s/%s", rn, p.scenario, p.rt, orDash(p.mode), p.clientKind, p.shape, p.ss != "", p.cryptoClass, p.faultMethod, p.faultKind)
+	if p.encPhase != "" {
+		exp.Front = "e2e-encoder-fault"
+		exp.Input["encoder_fault"] = map[string]any{"armed_before": p.encPhase, "failing_encode_call": p.encAt, "and_every_later_call": p.encSticky, "error": p.encKind}
+		exp.Dim += fmt.Sprintf("|enc=%s/%d/%v", p.encPhase, p.encAt, p.encSticky)
+	}
+	encFired := func() bool { return w.enc != nil && w.enc.failed() > 0 }
 	if router == 0 {
 		run.Count("value_classes", "state:"+p.stateClass)
 		run.Count("value_classes", "session_state:"+p.ssClass)
@@ -385,7 +428,11 @@ func e2eCase(run *ev.Run, j int, router int) {
 	}
 
 	run.Eval()
-	run.Count("e2e_scenarios", rn+":"+p.scenario)
+	if p.encPhase != "" {
+		run.Count("encoder_fault_scenarios", rn+":"+p.scenario+":armed-before-"+p.encPhase)
+	} else {
+		run.Count("e2e_scenarios", rn+":"+p.scenario)
+	}
 	finish := func(resp *opdrv.Resp, phase string, success bool) {
 		if resp.Panic != nil {
 			reportPanic(run, exp, resp.Panic)
@@ -394,10 +441,42 @@ func e2eCase(run *ev.Run, j int, router int) {
 		body := resp.Body.String()
 		d := decodeDelivery(resp.Status, resp.Location(), body, p.mode)
 		exp.Input["phase"] = phase
+		exp.Tag = "e2e:" + rn + ":" + phase + ":error"
+		if success {
+			exp.Tag = "e2e:" + rn + ":" + phase + ":success"
+		}
 		if d.Channel == "none" {
 			run.Count("e2e_not_redirected", fmt.Sprintf("%s:%s:%s status=%d %s", rn, p.scenario, phase, resp.Status, trunc(oneLine(body), 50)))
 		}
+		if w.enc != nil {
+			calls, fails := w.enc.counts()
+			exp.Input["encoder_calls_and_failures_since_armed"] = []int{calls, fails}
+		}
 		raised := judge(run, exp, d, body)
+		if encFired() {
+			// the one thing known about the answer: the encoder of the response failed while it was built
+			outcome := "delivered"
+			switch {
+			case d.Channel == "none" && d.Status >= 400:
+				outcome = "refused"
+			case d.Channel == "none":
+				outcome = "lost"
+			}
+			modeKind := "url"
+			if p.mode == "form_post" {
+				modeKind = "form_post"
+			}
+			also := ""
+			if w.faults.hits > 0 || (hc != nil && hc.fails > 0) {
+				also = " on the error path of a storage/Crypto fault"
+			} else if p.scenario != "success" && p.scenario != "fault-callback" && p.scenario != "fault-create" {
+				also = " on the error path of a refused request"
+			}
+			run.Count("encoder_fault", fmt.Sprintf("%s:%s:asked=%s:encode#%d%s%s -> %s status=%d via %s", rn, phase, orDash(p.mode), p.encAt, map[bool]string{true: "+later", false: ""}[p.encSticky], also, outcome, d.Status, d.Channel))
+			run.Observed("encoder-fault:" + rn + ":" + phase + ":" + modeKind + ":" + outcome)
+		} else if w.enc != nil {
+			run.Count("encoder_fault", fmt.Sprintf("%s:%s:not-reached (encode#%d)", rn, phase, p.encAt))
+		}
 		if d.Channel == "none" {
 			return
 		}
@@ -423,6 +502,9 @@ func e2eCase(run *ev.Run, j int, router int) {
 		}
 	}
 
+	if p.encPhase == "authorize" {
+		w.enc.arm(p.encAt, p.encSticky, p.encKind)
+	}
 	id, resp := w.Authorize(router, ap)
 	if id == "" {
 		// answered at the authorization endpoint
@@ -447,6 +529,9 @@ func e2eCase(run *ev.Run, j int, router int) {
 			w.faults.arm(p.faultMethod, mkFault)
 		}
 	}
+	if p.encPhase == "callback" {
+		w.enc.arm(p.encAt, p.encSticky, p.encKind)
+	}
 	seq0 := resp.SeqEnd
 	resp = w.Callback(router, id)
 	switch {
@@ -460,8 +545,11 @@ func e2eCase(run *ev.Run, j int, router int) {
 		// success: the values the provider produced are known from the journal / the crypto
 		if pd := decodeDelivery(resp.Status, resp.Location(), resp.Body.String(), p.mode); resp.Panic == nil && firstValue(pd, "error") != "" &&
 			firstValue(pd, "code") == "" && firstValue(pd, "id_token") == "" && firstValue(pd, "access_token") == "" {
-			// the provider answered with an error although nothing was wrong: whether it must succeed is not this property
-			run.Count("grey", "error-response-in-a-success-scenario:"+rn)
+			// the provider answered with an error although nothing was wrong (or its encoder failed while the response was
+			// built): whether it must succeed is not this property
+			if !encFired() {
+				run.Count("grey", "error-response-in-a-success-scenario:"+rn)
+			}
 			genericError(true)
 			finish(resp, "callback", false)
 			return
